@@ -78,6 +78,13 @@ pub struct Case {
     /// transactions are confirmed on the tracker's chain
     #[serde(default)]
     pub onchain: bool,
+    /// 0 = API level; 4, 5, 6 = the signer is built by HandlerBuilder and every request that has
+    /// a protocol message (PreapproveInvoice / PreapproveKeysend, SignRemoteCommitmentTx2,
+    /// ValidateRevocation, ValidateCommitmentTx2, RevokeCommitmentTx, SignLocalCommitmentTx2,
+    /// GetHeartbeat) goes through the wire handlers at that negotiated protocol version (at
+    /// version 4 a validation also revokes; restarts rebuild the handler from the store)
+    #[serde(default)]
+    pub wire: u8,
 }
 
 const VEL_LIMIT_SAT: [u64; 3] = [60_000, 150_000, 260_000];
@@ -181,7 +188,10 @@ impl Prop for C06 {
     fn strategy(&self, tier: Tier) -> BoxedStrategy<Case> {
         let n = tier.pick(45usize, 120usize);
         let vel = prop_oneof![5 => Just(0u8), 1 => Just(1u8), 2 => Just(2u8), 1 => Just(3u8)];
-        (2u8..4, any::<bool>(), vel, proptest::collection::vec(op_strat(), 1..n), prop::bool::weighted(0.35)).prop_map(|(nchan, anchors, vel, ops, onchain)| Case { nchan, anchors, vel, ops, onchain }).boxed()
+        let wire = prop_oneof![6 => Just(0u8), 1 => Just(4u8), 2 => Just(5u8), 2 => Just(6u8)];
+        (2u8..4, any::<bool>(), vel, proptest::collection::vec(op_strat(), 1..n), prop::bool::weighted(0.35), wire)
+            .prop_map(|(nchan, anchors, vel, ops, onchain, wire)| Case { nchan, anchors, vel, ops, onchain, wire: if onchain { 0 } else { wire } })
+            .boxed()
     }
 
     fn run(&self, case: &Case, st: &mut CaseStats, ctx: &Ctx) -> Result<(), Violation> {
@@ -193,8 +203,18 @@ impl Prop for C06 {
             };
             st.class("finite_velocity_limit");
         }
-        let mut w = if case.onchain { World::new_onchain(cfg) } else { World::new(cfg) };
-        st.class(if case.onchain { "onchain-factory" } else { "simple-factory" });
+        use crate::props::proto::{sign_remote2_msg, unit, validate_msg, Negotiation, ProtoWorld, To};
+        use vls_protocol::msgs::{self, Message};
+        let wire = if case.onchain { 0 } else { case.wire };
+        let mut pw: Option<ProtoWorld> = if wire > 0 { Some(ProtoWorld::new(cfg.clone(), wire as u32, Negotiation::SignerCap)) } else { None };
+        let mut w = match pw.as_ref() {
+            Some(pw) => World::from_proto(pw),
+            None => if case.onchain { World::new_onchain(cfg) } else { World::new(cfg) },
+        };
+        st.class(if wire > 0 { "wire-execution" } else if case.onchain { "onchain-factory" } else { "simple-factory" });
+        if wire > 0 {
+            st.class(format!("wire:protocol-version-{}", wire));
+        }
         let max_fee_msat: u128 = w.cfg.policy.max_routing_fee_msat as u128;
         let nchan = case.nchan as usize;
         let mut led: Vec<ChanLedger> = vec![];
@@ -203,7 +223,10 @@ impl Prop for C06 {
             spec.anchors = case.anchors;
             spec.value_sat = VALUE;
             spec.push_msat = VALUE / 2 * 1000;
-            if case.onchain {
+            if let Some(pw) = pw.as_mut() {
+                let pci = pw.open(&spec);
+                w.chans.push(pw.chans[pci].clone());
+            } else if case.onchain {
                 crate::chainpool::open_confirmed(&mut w, &spec);
             } else {
                 w.open(&spec);
@@ -215,12 +238,21 @@ impl Prop for C06 {
         for ci in 0..nchan {
             let c0 = finish_content(case.anchors, VALUE, 1000, VALUE / 2, vec![], vec![]);
             let signed = w.chans[ci].cp_sign_holder(&secp, 0, &c0, SigKind::Valid);
-            let r = w.with_chan(ci, |ch| {
-                ch.validate_holder_commitment_tx_phase2(0, c0.feerate, c0.to_holder, c0.to_cp, vec![], vec![], &signed.commit_sig, &signed.htlc_sigs)?;
-                ch.activate_initial_commitment()
-            });
             let p0 = w.chans[ci].cp.point(&secp, 0);
-            let r2 = w.with_chan(ci, |ch| ch.sign_counterparty_commitment_tx_phase2(&p0, 0, c0.feerate, c0.to_holder, c0.to_cp, vec![], vec![]));
+            let (r, r2) = if let Some(pw) = pw.as_mut() {
+                // the handler activates commitment 0 as part of ValidateCommitmentTx2
+                let m = validate_msg(&w.chans[ci], &secp, 0, &c0, &signed, false);
+                let r = unit(pw.request(To::Chan(ci), m));
+                let r2 = unit(pw.request(To::Chan(ci), sign_remote2_msg(&p0, 0, &c0)));
+                (r, r2)
+            } else {
+                let r = w.with_chan(ci, |ch| {
+                    ch.validate_holder_commitment_tx_phase2(0, c0.feerate, c0.to_holder, c0.to_cp, vec![], vec![], &signed.commit_sig, &signed.htlc_sigs)?;
+                    ch.activate_initial_commitment().map(|_| ())
+                });
+                let r2 = w.with_chan(ci, |ch| ch.sign_counterparty_commitment_tx_phase2(&p0, 0, c0.feerate, c0.to_holder, c0.to_cp, vec![], vec![]).map(|_| ()));
+                (r, r2)
+            };
             if !r.is_ok() || !r2.is_ok() {
                 panic!("C06 setup failed: {} {}", r.err_msg(), r2.err_msg());
             }
@@ -269,7 +301,31 @@ impl Prop for C06 {
                     let a_msat = APPROVE_SAT[*amt as usize % 3] * 1000;
                     let node = w.node.clone();
                     let was_live = w.node.get_state().invoices.contains_key(&phash(*h));
-                    let res: Out<bool> = if *keysend {
+                    let res: Out<bool> = if let Some(pw) = pw.as_mut() {
+                        let msg = if *keysend {
+                            Message::PreapproveKeysend(msgs::PreapproveKeysend {
+                                destination: vls_protocol::model::PubKey(payee.serialize()),
+                                payment_hash: vls_protocol::model::Sha256(phash(*h).0),
+                                amount_msat: a_msat,
+                            })
+                        } else {
+                            let inv = make_invoice(*h, a_msat, w.clock.now());
+                            Message::PreapproveInvoice(msgs::PreapproveInvoice { invstring: vls_protocol::serde_bolt::WireString(match &inv { Invoice::Bolt11(b) => b.to_string().into_bytes(), _ => unreachable!() }) })
+                        };
+                        match pw.request(To::Root, msg) {
+                            Out::Ok(rep) => {
+                                if let Some(r) = rep.as_any().downcast_ref::<msgs::PreapproveInvoiceReply>() {
+                                    Out::Ok(r.result)
+                                } else if let Some(r) = rep.as_any().downcast_ref::<msgs::PreapproveKeysendReply>() {
+                                    Out::Ok(r.result)
+                                } else {
+                                    Out::Err(lightning_signer::util::status::Status::internal("unexpected reply type"))
+                                }
+                            }
+                            Out::Err(e) => Out::Err(e),
+                            Out::Panic(p) => Out::Panic(p),
+                        }
+                    } else if *keysend {
                         let ph = phash(*h);
                         call(move || node.add_keysend(payee, ph, a_msat))
                     } else {
@@ -341,7 +397,11 @@ impl Prop for C06 {
                     let (nc, nr) = w.with_chan(ci, |c| Ok((c.enforcement_state.next_counterparty_commit_num, c.enforcement_state.next_counterparty_revoke_num))).ok().unwrap();
                     let point = w.chans[ci].cp.point(&secp, nc);
                     let (cpo, cpr) = (to_info2(&content.received), to_info2(&content.offered));
-                    let res = w.with_chan(ci, |c| c.sign_counterparty_commitment_tx_phase2(&point, nc, content.feerate, content.to_holder, content.to_cp, cpo.clone(), cpr.clone()));
+                    let res: Out<()> = if let Some(pw) = pw.as_mut() {
+                        unit(pw.request(To::Chan(ci), sign_remote2_msg(&point, nc, &content)))
+                    } else {
+                        w.with_chan(ci, |c| c.sign_counterparty_commitment_tx_phase2(&point, nc, content.feerate, content.to_holder, content.to_cp, cpo.clone(), cpr.clone()).map(|_| ()))
+                    };
                     tag = res.tag();
                     if res.is_panic() { dead = true; }
                     if std::env::var("VERIF_ERRCLASS").is_ok() && res.is_err() { st.class(format!("E:cp:{}", short_err(&res.err_msg()))); }
@@ -351,7 +411,11 @@ impl Prop for C06 {
                         // the counterparty revokes its previous commitment
                         if nc >= 1 && nr + 1 == nc {
                             let s = w.chans[ci].cp.secret(nr);
-                            let _ = w.with_chan(ci, |c| c.validate_counterparty_revocation(nr, &s));
+                            if let Some(pw) = pw.as_mut() {
+                                let _ = pw.request(To::Chan(ci), Message::ValidateRevocation(msgs::ValidateRevocation { commitment_number: nr, commitment_secret: vls_protocol::model::DisclosedSecret(s.secret_bytes()) }));
+                            } else {
+                                let _ = w.with_chan(ci, |c| c.validate_counterparty_revocation(nr, &s));
+                            }
                         }
                     }
                 }
@@ -362,12 +426,26 @@ impl Prop for C06 {
                     let next = w.with_chan(ci, |c| Ok(c.enforcement_state.next_holder_commit_num)).ok().unwrap();
                     let signed = w.chans[ci].cp_sign_holder(&secp, next, &content, SigKind::Valid);
                     let (o, r) = (to_info2(&content.offered), to_info2(&content.received));
-                    let res = w.with_chan(ci, |c| c.validate_holder_commitment_tx_phase2(next, content.feerate, content.to_holder, content.to_cp, o.clone(), r.clone(), &signed.commit_sig, &signed.htlc_sigs));
+                    let res: Out<()> = if let Some(pw) = pw.as_mut() {
+                        let m = validate_msg(&w.chans[ci], &secp, next, &content, &signed, false);
+                        unit(pw.request(To::Chan(ci), m))
+                    } else {
+                        w.with_chan(ci, |c| c.validate_holder_commitment_tx_phase2(next, content.feerate, content.to_holder, content.to_cp, o.clone(), r.clone(), &signed.commit_sig, &signed.htlc_sigs).map(|_| ()))
+                    };
                     tag = res.tag();
                     if res.is_panic() { dead = true; }
                     if std::env::var("VERIF_ERRCLASS").is_ok() && res.is_err() { st.class(format!("E:holder:{}", short_err(&res.err_msg()))); }
                     if res.is_ok() {
-                        led[ci].holder_pending = Some((next, content.clone()));
+                        let now_next = w.with_chan(ci, |c| Ok(c.enforcement_state.next_holder_commit_num)).ok().unwrap();
+                        if now_next == next + 1 {
+                            // protocol version 4: the validation request also revoked the predecessor,
+                            // the validated commitment is current at once
+                            st.class("wire:validate-also-revoked");
+                            led[ci].holder_pending = None;
+                            led[ci].holder_current = Some(content.clone());
+                        } else {
+                            led[ci].holder_pending = Some((next, content.clone()));
+                        }
                         accepted_update = Some(("validate-holder", ci, Some(content)));
                     }
                 }
@@ -375,7 +453,15 @@ impl Prop for C06 {
                     kind = 5;
                     let ci = *ch as usize % nchan;
                     let next = w.with_chan(ci, |c| Ok(c.enforcement_state.next_holder_commit_num)).ok().unwrap();
-                    let res = w.with_chan(ci, |c| c.revoke_previous_holder_commitment(next));
+                    let res: Out<()> = if let Some(pw) = pw.as_mut() {
+                        if next == 0 {
+                            Out::Err(lightning_signer::util::status::Status::invalid_argument("no commitment to revoke"))
+                        } else {
+                            unit(pw.request(To::Chan(ci), Message::RevokeCommitmentTx(msgs::RevokeCommitmentTx { commitment_number: next - 1 })))
+                        }
+                    } else {
+                        w.with_chan(ci, |c| c.revoke_previous_holder_commitment(next).map(|_| ()))
+                    };
                     tag = res.tag();
                     if res.is_panic() { dead = true; }
                     if res.is_ok() {
@@ -409,7 +495,11 @@ impl Prop for C06 {
                 Op::Heartbeat => {
                     kind = 7;
                     let node = w.node.clone();
-                    let res = call(move || Ok(node.get_heartbeat()));
+                    let res: Out<()> = if let Some(pw) = pw.as_mut() {
+                        unit(pw.request(To::Root, Message::GetHeartbeat(msgs::GetHeartbeat {})))
+                    } else {
+                        call(move || { let _ = node.get_heartbeat(); Ok(()) })
+                    };
                     tag = res.tag();
                     if res.is_panic() { dead = true; }
                 }
@@ -443,14 +533,26 @@ impl Prop for C06 {
                     if next == 0 {
                         tag = "skip";
                     } else {
-                        let res = w.with_chan(ci, |c| c.sign_holder_commitment_tx_phase2(next - 1).map(|_| ()));
+                        let res: Out<()> = if let Some(pw) = pw.as_mut() {
+                            unit(pw.request(To::Chan(ci), Message::SignLocalCommitmentTx2(msgs::SignLocalCommitmentTx2 { commitment_number: next - 1 })))
+                        } else {
+                            w.with_chan(ci, |c| c.sign_holder_commitment_tx_phase2(next - 1).map(|_| ()))
+                        };
                         tag = res.tag();
                         if res.is_panic() { dead = true; }
                     }
                 }
                 Op::Restart => {
                     kind = 9;
-                    let r = w.restart();
+                    let r = if let Some(pw) = pw.as_mut() {
+                        let r = pw.restart();
+                        if r.is_ok() {
+                            w.rebind_proto(pw);
+                        }
+                        r
+                    } else {
+                        w.restart()
+                    };
                     tag = r.tag();
                     if !r.is_ok() { dead = true; }
                 }
